@@ -64,6 +64,12 @@ class Summ:
                 op, b = "Gt", ("const", "int", 0)
             f = B.atom(("rel", op, a, b))
             return B.Not(f) if neg else f
+        if k == "call" and t[1] in ("std::cmp::PartialOrd::lt", "std::cmp::PartialOrd::le") and len(t[2]) == 2 and not self._float_cmp(t):
+            # total orders (integers, tuples and strings of them): a < b  <=>  !(a >= b) ;  a <= b  <=>  !(a > b)
+            dual = "std::cmp::PartialOrd::ge" if t[1].endswith("::lt") else "std::cmp::PartialOrd::gt"
+            return B.Not(B.atom(("pred", ("call", dual, t[2], None))))
+        if k == "call" and t[1] in ("std::cmp::PartialOrd::ge", "std::cmp::PartialOrd::gt") and len(t[2]) == 2:
+            return B.atom(("pred", ("call", t[1], t[2], None)))
         if k == "call":
             tb = self.crate.bodies.get(t[1])
             if tb is not None and tb.local_ty(0) == "bool":
@@ -77,13 +83,10 @@ class Summ:
             return B.atom(("pred", t))
         if k == "phi":
             members = t[2]
-            if all(m[0] == "const" and m[1] == "bool" for m in members):
-                fb = self.crate.bodies.get(t[1][0])
-                if fb is None:
-                    raise Unanalysable("flag of unknown body")
-                return self.flag_cond(fb, t[1][1])
-            # short-circuit temporaries: phi of boolean terms is not expected (MIR lowers && / || in conditions to control flow)
-            raise Unanalysable("boolean phi %s" % show(t)[:80])
+            fb = self.crate.bodies.get(t[1][0]) if isinstance(t[1], tuple) and len(t[1]) == 2 else None
+            if fb is None:
+                raise Unanalysable("boolean phi %s" % show(t)[:80])
+            return self.flag_cond(fb, t[1][1])
         return B.atom(("pred", t))
 
     def atom_formula(self, body, a):
@@ -191,22 +194,37 @@ class Summ:
         self._ret[body.path] = r
         return r
 
+    @staticmethod
+    def _float_cmp(t):
+        return any(x[0] == "const" and x[1] == "other" and ("f32" in str(x[2]) or "f64" in str(x[2])) for a in t[2] for x in T.subterms(a))
+
     def flag_cond(self, body, local):
         key = (body.path, local)
         if key in self._flag:
             return self._flag[key]
-        trues, falses = [], []
+        trues, falses, others = [], [], []
         for (bb, si, pr, kind, payload) in body.defs.get(local, []):
-            if pr or kind != "rv":
-                raise Unanalysable("flag _%d of %s assigned from a non-constant" % (local, body.path))
-            v = body.val_rvalue(payload, (), (bb, si))
+            if pr or kind not in ("rv", "call"):
+                raise Unanalysable("flag _%d of %s assigned through a projection" % (local, body.path))
+            v = body.val_rvalue(payload, (), (bb, si)) if kind == "rv" else body.val_call(payload, (), bb)
             if not (v[0] == "const" and v[1] == "bool"):
-                raise Unanalysable("flag _%d of %s assigned %s" % (local, body.path, show(v)[:40]))
+                others.append((bb, v))
+                continue
             (trues if v[2] else falses).append(bb)
         for f in falses:
-            for t in trues:
-                if not body.dominates(f, t):
+            for t in trues + [o[0] for o in others]:
+                if not body.dominates(f, t) and body.reaches(t, f):
                     raise Unanalysable("flag _%d of %s is reset after being set" % (local, body.path))
+        # a boolean computed on one path and defaulted on the others (`if let .. { return cond } false`): each definition contributes under the
+        # condition of its own path; two computed definitions may not overwrite each other
+        for (b1, _v1) in others:
+            for b2 in trues + [o[0] for o in others]:
+                if b1 != b2 and (body.reaches(b1, b2) or body.reaches(b2, b1)):
+                    raise Unanalysable("flag _%d of %s is assigned a computed value on overlapping paths" % (local, body.path))
+        if others:
+            r = B.Or(*([self.guard(body, bb) for bb in trues] + [B.And(self.guard(body, bb), self.bool_formula(body, v)) for (bb, v) in others]))
+            self._flag[key] = r
+            return r
         r = B.Or(*[self.guard(body, bb) for bb in trues])
         # "some iteration set the flag": the loop elements mentioned are bound by the flag, not by the reader's position
         inner = set()
@@ -261,7 +279,14 @@ class Summ:
             if k == "is":
                 return B.atom(("is", core.subst_params(key[1], env), key[2]))
             if k == "rel":
-                return B.atom(("rel", key[1], core.subst_params(key[2], env), core.subst_params(key[3], env)))
+                a2, b2 = core.subst_params(key[2], env), core.subst_params(key[3], env)
+                if key[1] == "Eq":
+                    # comparison of a boolean with a constant (`flag == (v < x)` after the flag's value is known)
+                    for (x, y) in ((a2, b2), (b2, a2)):
+                        if x[0] == "const" and x[1] == "bool" and y[0] in ("call", "bin", "un", "is", "phi"):
+                            f2 = self.bool_formula(None, y)
+                            return f2 if x[2] else B.Not(f2)
+                return B.atom(("rel", key[1], a2, b2))
             if k == "pred":
                 t = key[1]
                 if t[0] == "intsw":
